@@ -157,7 +157,7 @@ class World(object):
     def __init__(self, dt=1.0 / 64, mtu=1500, n_clients=1, order="cs", latency=1, chooser=None,
                  monitors=(), server_cfg=None, client_cfg=None, key_offset=0, fates=(), fate_filter=None,
                  pinned=True, start_time=1000.0, client_addrs=None, rnd_seed=0, token_source=None,
-                 connect_callback=False, autoconnect=True):
+                 connect_callback=False, autoconnect=True, server_send="twisted"):
         self.dt = dt
         self.mtu = mtu
         self.order = order
@@ -206,6 +206,15 @@ class World(object):
         self.server = TwistedServer(self.ctxt, SERVER_ADDR, install_signals=False)
         self.server.transport = Transport(self)
         th = self.server.thread
+        if server_send == "thread":
+            # the plain UDP server's send path: UdpServerThread.send over a socket object
+            del th.send  # drop TwistedServer's instance override -> class method
+            world_ = self
+
+            class _Sock(object):
+                def sendto(self, datagram, addr):
+                    world_.on_server_write(datagram, addr)
+            th.sock = _Sock()
         th.lk_queue = seams.FakeLock()
         th.cv_queue = seams.FakeCondition(self.baton)
         real_run = th.run
